@@ -10,7 +10,7 @@
    [size], [decode] are Section variables; the digest is only assumed injective on the blobs that
    are stored in one archive, and [decode] is only assumed to invert the encoder on the stored
    messages (that is C07's round trip).  RFC3339 rendering/parsing (chrono) likewise. *)
-From Coq Require Import List String Ascii NArith Bool Lia DecimalString DecimalN Decimal.
+From Coq Require Import List String Ascii Arith NArith Bool Lia DecimalString DecimalN Decimal.
 Import ListNotations.
 Open Scope string_scope.
 
@@ -174,15 +174,23 @@ Proof.
     cbn; eexists; eexists; (split; [reflexivity|discriminate]).
 Qed.
 
+Lemma parse_usize_nonplus c r :
+  c <> "+"%char ->
+  parse_usize (String c r) =
+    match NilEmpty.uint_of_string (String c r) with
+    | Some d => if N.ltb (N.of_uint d) usize_max_succ then Some (N.of_uint d) else None
+    | None => None
+    end.
+Proof.
+  intro Hc. unfold parse_usize.
+  destruct c as [[] [] [] [] [] [] [] []]; try reflexivity. congruence.
+Qed.
+
 Lemma usize_roundtrip n : (n < usize_max_succ)%N -> parse_usize (render_usize n) = Some n.
 Proof.
-  intro H. unfold parse_usize.
-  destruct (to_uint_head n) as (c & r & E & Hc). rewrite E.
-  assert (Hb : match String c r with String "+" r0 => r0 | _ => String c r end = String c r).
-  { destruct c as [[] [] [] [] [] [] [] []]; try reflexivity. congruence. }
-  rewrite Hb. rewrite <- E. unfold render_usize. rewrite NilEmpty.usu.
-  rewrite DecimalN.Unsigned.of_to. apply N.ltb_lt in H. rewrite H.
-  fold (render_usize n). rewrite E. reflexivity.
+  intro H. destruct (to_uint_head n) as (c & r & E & Hc). rewrite E.
+  rewrite (parse_usize_nonplus _ _ Hc). rewrite <- E. unfold render_usize.
+  rewrite NilEmpty.usu, DecimalN.Unsigned.of_to. apply N.ltb_lt in H. now rewrite H.
 Qed.
 
 (* ------------------------------------------------------------------------------ *)
@@ -212,14 +220,14 @@ Definition media_type (k : kind) : string :=
 Lemma media_type_eqb a b : String.eqb (media_type a) (media_type b) = kind_eqb a b.
 Proof. destruct a, b; reflexivity. Qed.
 
-Definition prefix (k : kind) : string :=
+Definition key_prefix (k : kind) : string :=
   match k with
   | KInstance => "org.ommx.v1.instance."
   | KParametric => "org.ommx.v1.parametric-instance."
   | KSolution => "org.ommx.v1.solution."
   | KSampleSet => "org.ommx.v1.sample-set."
   end.
-Definition key (k : kind) (field : string) : string := prefix k ++ field.
+Definition key (k : kind) (field : string) : string := key_prefix k ++ field.
 
 (* Digest::new: exactly one ':' and at least one character of [a-zA-Z0-9=_-] after it *)
 Definition enc_char (c : ascii) : bool :=
@@ -240,6 +248,8 @@ Inductive aerr := ENotFound | EMissingBlob | EWrongMedia | EDecode | ENotOmmx.
 Inductive result (X : Type) := Ok (x : X) | Err (e : aerr).
 Arguments Ok {X} x.
 Arguments Err {X} e.
+
+Open Scope list_scope.
 
 Section Model.
   Variable blob : Type.              (* encoded message bytes *)
@@ -473,7 +483,7 @@ Section Model.
     (forall o', In o' pre -> o_blob o' <> o_blob o) ->
     find (fun x => dg_eqb (digest (o_blob x)) (digest (o_blob o))) (pre ++ o :: post) = Some o.
   Proof.
-    intros Hinj Hfirst. induction pre as [|p pre IH]; cbn [app find].
+    intros Hinj Hfirst. induction pre as [|p pre IH]; simpl.
     - now rewrite dg_eqb_refl.
     - destruct (dg_eqb (digest (o_blob p)) (digest (o_blob o))) eqn:E.
       + exfalso. apply dg_eqb_spec in E. apply (Hfirst p (or_introl eq_refl)).
@@ -611,4 +621,79 @@ Section Model.
   (* a setter changes no other key *)
   Theorem setter_frame k o a k' : k' <> aop_key k o -> aget k' (apply_aop k o a) = aget k' a.
   Proof. intro H. destruct o; cbn [apply_aop aop_key] in *; now apply aget_aset_other. Qed.
+  (* the value written by a setter, and whole setter sequences: the last writer of a key wins,
+     a key no setter wrote is absent *)
+  Definition aop_value (o : aop) : string :=
+    match o with
+    | ATitle s | ALicense s | ADataset s | AInstance s | ASolver s => s
+    | ACreated t | AStart t | AEnd t => render_time t
+    | AAuthors l => join_authors l
+    | AVariables n | AConstraints n => render_usize n
+    | AOther _ v => v
+    end.
+  Lemma apply_aop_writes k o a : apply_aop k o a = aset (aop_key k o) (aop_value o) a.
+  Proof. destruct o; reflexivity. Qed.
+
+  Lemma fold_aops_frame k os a k' :
+    (forall o, In o os -> aop_key k o <> k') ->
+    aget k' (fold_left (fun a o => apply_aop k o a) os a) = aget k' a.
+  Proof.
+    revert a. induction os as [|o os IH]; intros a H; [reflexivity|].
+    cbn [fold_left]. rewrite IH.
+    - apply setter_frame. intro E. exact (H o (or_introl eq_refl) (eq_sym E)).
+    - intros o' Ho'. apply H. now right.
+  Qed.
+
+  Theorem apply_aops_last_writer k pre o post :
+    (forall o', In o' post -> aop_key k o' <> aop_key k o) ->
+    aget (aop_key k o) (apply_aops k (pre ++ o :: post)) = Some (aop_value o).
+  Proof.
+    intro H. unfold apply_aops. rewrite fold_left_app. cbn [fold_left].
+    rewrite (fold_aops_frame _ _ _ _ H). rewrite apply_aop_writes. apply aget_aset_same.
+  Qed.
+
+  Theorem apply_aops_untouched k os k' :
+    (forall o, In o os -> aop_key k o <> k') -> aget k' (apply_aops k os) = None.
+  Proof. intro H. unfold apply_aops. now rewrite (fold_aops_frame _ _ _ _ H). Qed.
 End Model.
+
+Arguments Build_op {blob msg}.
+Arguments o_kind {blob msg}.
+Arguments o_msg {blob msg}.
+Arguments o_blob {blob msg}.
+Arguments o_ann {blob msg}.
+Arguments Build_descriptor {dg}.
+Arguments d_media {dg}.
+Arguments d_digest {dg}.
+Arguments d_size {dg}.
+Arguments d_ann {dg}.
+Arguments a_type {blob dg}.
+Arguments a_layers {blob dg}.
+Arguments a_store {blob dg}.
+Arguments build_with {blob msg dg}.
+Arguments build {blob msg dg}.
+Arguments layer_of {blob msg dg}.
+Arguments get_manifest {blob dg}.
+Arguments get_layer_descriptors {blob dg}.
+Arguments get_layer {blob dg}.
+Arguments get_as {blob msg dg}.
+Arguments stored_blobs {blob msg}.
+Arguments inj_on {blob dg}.
+Arguments wf_op {blob msg}.
+Arguments apply_aop {time}.
+Arguments apply_aops {time}.
+Arguments acc_time {time}.
+Arguments aop_key {time}.
+Arguments aop_value {time}.
+Arguments ATitle {time}.
+Arguments ACreated {time}.
+Arguments AAuthors {time}.
+Arguments ALicense {time}.
+Arguments ADataset {time}.
+Arguments AVariables {time}.
+Arguments AConstraints {time}.
+Arguments AStart {time}.
+Arguments AEnd {time}.
+Arguments AInstance {time}.
+Arguments ASolver {time}.
+Arguments AOther {time}.
